@@ -373,6 +373,23 @@ def gen_hist(ctx):
         add("resume-crash-discard-then-head-fails", [blob], [{"t": "plant", "blob": 0, "data": hx(bytes(half) + b"x"), "parts": three}, pull_step("ns/m:t", [{"blob": 0}], None, {"head:0": [{"status": 500}]})], tail=1)
         add("resume-consistent-three-parts", [blob], [{"t": "plant", "blob": 0, "data": hx(bytes(half)), "parts": three}, pull_step("ns/m:t", [{"blob": 0}])], tail=1)
 
+        # an installed model is updated: the tag is republished with one new layer and a stale (wrong but positive) size for
+        # the unchanged, cached layer, while that blob's requests fail; the cached blob must survive a failed attempt
+        n0 = len(b[0])
+        for kind, sc, cancel in [("head-503", {"head:0": [{"status": 503}]}, None), ("head-garbage", {"head:0": [{"nohdr": True}]}, None),
+                                 ("get-302", {"get:0": [{"status": 302}]}, None), ("cdn-reset-then-cancel", {"cdn:0:%d" % (n0 - 1): [{"cut": 0, "end": "reset", "cl": n0}]}, {"key": "cdn:0:%d" % (n0 - 1), "n": 2}),
+                                 ("cancel-at-head", {}, {"key": "head:0", "n": 1})]:
+            for shared in (False, True):
+                stale = rng.choice([n0 + rng.randint(1, 9), max(1, n0 - rng.randint(1, n0))]) if n0 > 1 else n0 + 1
+                if stale == n0:
+                    stale = n0 + 1
+                upd = pull_step("ns/m:t", [{"blob": 0, "size": stale}, {"blob": 2}], None, dict(sc))
+                if cancel:
+                    upd["cancel"] = dict(cancel)
+                steps = [pull_step("ns/m:t", [{"blob": 0}, {"blob": 1}])] + ([pull_step("ns/other:t", [{"blob": 0}, {"blob": 3}])] if shared else []) + \
+                        [upd, {"t": "pull", "name": "ns/m:t", "manifest": {"layers": [{"blob": 0}, {"blob": 2}]}, "script": {}, "clean": True}]
+                add("update-stale-size-refetch-fails-" + kind + ("-shared" if shared else ""), b[:4], steps, tail=0)
+
         # --- I: a manifest that lies about a layer's size
         add("manifest-size-lie", b[:2], [pull_step("ns/m:t", [{"blob": 0, "size": len(b[0]) + 1}, {"blob": 1}])], tail=0)
         # --- non-canonical digest spellings (monitor only)
